@@ -166,6 +166,25 @@ CLAIMED["C12"] = {
     "technique": "Lean 4 theorems (invariant by induction over host histories of a timer-obeying host, per-handler re-arm lemmas, progress lemmas) + differential correspondence + liveness oracles under simulated time",
 }
 
+CLAIMED["C03"] = {
+    "text": "Proof. The Lean model marks every panic site of the modelled code (checked arithmetic, debug assertions, unconditional "
+            "panics) as a failure. Theorems: on a port whose stored timestamps and durations are bounded (Bnd: < 2^112 units, an "
+            "invariant every handler and every BMCA run preserves) every frame on either interface - any bytes up to 65535 octets - with any "
+            "receive timestamp below 2^63 ns, every transmit timestamp report, and every timer expiration with any queue of forwarded TLVs "
+            "returns normally (general_receive_total, event_receive_total, send_timestamp_total, timers_total; the measurement arithmetic "
+            "cannot overflow: syncMeasurement_total, delayMeasurement_total, peerMeasurement_total; decoded wire timestamps always convert; "
+            "corrections of any 64-bit value are applied without overflow); a BMCA run keeps every port bounded and can fail only through "
+            "the host passing the wrong number of ports, an announce interval no Duration can hold, or an S1 decision that C06 / C08 "
+            "exclude - never an unconditional panic (bmca_keeps_bnd, bmca_failure_kinds). Seven genuine panics found by the panic oracle "
+            "were repaired by fix: commits (stepsRemoved overflow, path trace of 129+ entries, Time - correction underflow, Delay_Req "
+            "correction overflow, debug assertion on slave-only instances, BMCA without ports, exact-fit TLV assertion). Model tied by "
+            "four streams (returned / panicked after every op); thorough tier also on a release build.",
+    "note": "Trusted: Lean kernel; generators. Partial where the truth is in the runtime: poisoned locks (C17), the filters (C13), the "
+            "daemon. The BMCA totality is split: boundedness + failure kinds are theorems; that the two excluded S1 cases cannot arise "
+            "rests on C06 (qualified stepsRemoved < 255) and C08 (S1 only to the port that produced Ebest, never master-only).",
+    "technique": "Lean 4 theorems (bounded-state invariant, totality of each handler by case analysis with integer range arithmetic) + differential correspondence + panic-site oracle (debug and release builds)",
+}
+
 CLAIMED["C14"] = {
     "text": "Proof. Lean theorems: a completed peer exchange hands the filter exactly ((t4'-t1)-(t3'-t2))/2 (Spec.peerDelay, `fixed` "
             "division semantics), stamped t4', for every timestamp and correction value; a Pdelay_Resp or follow-up for the current "
